@@ -402,10 +402,9 @@ def handle (line : Json) : Json :=
       let model := Json.mkObj [("r", "request"), ("url", jhex url), ("params", pairsToJson ps)]
       let specImpl := match hex? impl "url" with
         | none => false
-        | some u => specUriRequest msg loc rs u &&
-            (loc.contains 63 || loc.contains 35 || msg.isEmpty || pairsOf impl "params" == some (withRelay (sID, msg) rs))
-      res model ("uri/request" ++ (if rs.isEmpty then "" else "+relay") ++
-          (if loc.contains 63 || loc.contains 35 then "/dest-with-query-or-fragment" else "/plain-dest"))
+        | some u => (if u == url then specUriRequest msg loc rs url else specUriRequest msg loc rs u) &&
+            (msg.isEmpty || pairsOf impl "params" == some (parseQsl (queryOf loc) ++ withRelay (sID, msg) rs))
+      res model ("uri/request" ++ (if rs.isEmpty then "" else "+relay") ++ locPath loc)
         (specUriRequest msg loc rs url) specImpl
   | "artifact" =>
     let eid := text c "entity_id"
